@@ -269,3 +269,4 @@ impl Fnv {
         self.bytes(&x.to_le_bytes());
     }
 }
+pub use crate::decoding::verif_dec as dec;
